@@ -5,6 +5,7 @@
 -/
 import VerdeModel.Gen.Kernels
 import VerdeModel.Gen.Coords
+import VerdeModel.Gen.Trend
 open Verde
 
 def fl (x : Float) : String := floatStr x
@@ -23,6 +24,14 @@ def kernels : IO Unit := do
           IO.println s!"greens2d {fl e} {fl n} {fl md} {fl nu} | {fl g.1} {fl g.2.1} {fl g.2.2} | {fl m.1} {fl m.2.1} {fl m.2.2}"
   for (a, we, wn, e, n) in [(1000.0, 2500.0, 2500.0, 625.0, -625.0), (7.0, 3.5, 0.75, 1.25, 2.0), (2.0, 4.0, 8.0, 1.0, 1.0)] do
     IO.println s!"checker {fl a} {fl we} {fl wn} {fl e} {fl n} | {fl (Gen.checker a we wn e n)} | {fl (checker a we wn e n)}"
+
+def pairsS (l : List (Nat × Nat)) : String := " ".intercalate (l.map fun c => s!"{c.1} {c.2}")
+
+def trend : IO Unit := do
+  for d in [(-2 : Int), -1, 0, 1, 2, 3, 4, 5, 6, 7, 9, 12] do
+    let g := match Gen.powerCombinations d with | .ok l => pairsS l | .error _ => "-1"
+    let m := if d < 0 then "-1" else pairsS (powerCombinations d.toNat)
+    IO.println s!"powerComb {d} | {g} | {m}"
 
 def ratS (q : Rat) : String := ratStr q
 
@@ -73,6 +82,6 @@ def coords2 : IO Unit := do
 
 def main (args : List String) : IO Unit :=
   match args with
-  | ["kernels"] => kernels
+  | ["kernels"] => do kernels; trend
   | ["coords"] => do coords; coords2
   | _ => IO.println "usage: GenEval kernels|coords"
